@@ -272,3 +272,17 @@ package sqlx
 //@   opaque parseInsertStmt, NewPeriodicalExecutor
 //@   ensures [bad-statement] ret(parseInsertStmt, 1) != nil ==> result0 == nil && result1 == ret(parseInsertStmt, 1)
 //@   ensures [inserter-is-the-executors-container] ret(parseInsertStmt, 1) == nil ==> result1 == nil && result0 != nil && result0.inserter != nil && result0.inserter.conn == conn && result0.executor == ret(executors.NewPeriodicalExecutor) && unbox(arg(executors.NewPeriodicalExecutor, 1), ptr(dbInserter)) == result0.inserter && arg(executors.NewPeriodicalExecutor, 0) == 1000000000
+
+// parseTagName: the column name of a field is the first comma-separated part of its `db` tag (empty when untagged).
+//@ func parseTagName
+//@   prop C11
+//@   ensures [untagged-is-empty] len(ret(Get)) == 0 ==> result == "" && calls(strings.Split) == 0
+//@   ensures [first-part-of-the-db-tag] len(ret(Get)) > 0 && len(ret(strings.Split)) >= 1 ==> result == ret(strings.Split)[0] && arg(strings.Split, 0) == ret(Get) && arg(strings.Split, 1) == "," && arg(Get, 1) == "db"
+// unwrapFields: the destination fields in declaration order, an embedded struct contributing its own fields in
+// place (recursively), a nil pointer field being allocated first.
+//@ func unwrapFields
+//@   prop C11
+//@   opaque unwrapFields, Deref
+//@   loop 1 invariant 0 <= i
+//@   loop 1 iteration-ensures [field-i-in-order] calls(indirect.Field, at_head(i)) == 1 && i == at_head(i) + 1 && (calls(unwrapFields) == 0 ==> len(fields) == at_head(len(fields)) + 1) && (calls(unwrapFields) == 1 ==> len(fields) == at_head(len(fields)) + len(ret(unwrapFields)))
+//@   loop 1 iteration-ensures [embedded-structs-flattened-in-place] calls(unwrapFields) == 1 ==> ret(Field, 0, 2).Anonymous && calls(unwrapFields) <= 1
